@@ -1,6 +1,6 @@
 (** Replays engine-level harness scripts against the model on the float instance. *)
 From Coq Require Import ZArith List Bool Floats Uint63.
-From Flap Require Import Model.Num Model.NumF Model.TripHistory Model.Promises Model.Predictor Model.Engine Run.RunTH.
+From Flap Require Import Model.Num Model.NumF Model.TripHistory Model.Promises Model.Predictor Model.Engine Model.Persist Run.RunTH.
 Import ListNotations.
 Open Scope Z_scope.
 
@@ -179,7 +179,7 @@ Definition e_step (s : rstate) (o : eop) : rstate * bool :=
       | None => (s, false) end
   | ECheckAdmin hash => (s, hash_admin (e_admin e) =? hash)
   | ECheckTable hash => (s, hash_table (e_table e) =? hash)
-  | ERestart => (s, true)
+  | ERestart => (mkR0 (restart (N:=NumF) to_bits of_bits e) (r_slots s) (r_saved s), true)   (* really encodes and decodes *)
   | ESave => (mkR0 e (r_slots s) (Some e), true)
   | ERestore => match r_saved s with Some e0 => (mkR0 e0 (r_slots s) (r_saved s), true) | None => (s, false) end
   end.
